@@ -671,6 +671,26 @@ func validateSpaceAndExits(c *Ctx, r *Rep, fn, validate *ssa.Function, d *dpRend
 			}
 		}
 	}
+	// --- the list of wanted OIDs runs parallel to the profile's attribute list: row i of the table reads want[i] and
+	// attributes[i].Optional, so the two must be the same length, element for element
+	if W != nil {
+		var A ssa.Value
+		for _, b := range fn.Blocks {
+			for _, ins := range b.Instrs {
+				fa, ok := ins.(*ssa.FieldAddr)
+				if !ok || fieldOfAddr(fa).Name() != "Optional" {
+					continue
+				}
+				if ia, ok := fa.X.(*ssa.IndexAddr); ok && ia.Index == d.o {
+					A = ia.X
+				}
+			}
+		}
+		if A != nil {
+			ok, how := lenEqualLists(c, fn, validate, W, A, 0)
+			r.Check(ok, "want-parallel-to-attributes|"+fk, c.FnPos(fn), "the list compared against the subject has one entry per profile attribute (made with the attribute list's length, not filtered)", how)
+		}
+	}
 	if W == nil || H == nil {
 		r.Undecided("shape:table-size|"+fk, c.FnPos(fn), "the table is not made with len(profile attributes)+1 rows of len(subject)+1 cells")
 	} else {
@@ -914,4 +934,86 @@ func fillsBoolTable(f *ssa.Function) bool {
 		}
 	}
 	return false
+}
+
+// lenEqualLists: list w is made with the length of list a (directly, through the parameters of the function that uses
+// them, or by a helper that makes one entry per element of its argument).
+func lenEqualLists(c *Ctx, fn, outer *ssa.Function, w, a ssa.Value, depth int) (bool, string) {
+	if depth > 3 {
+		return false, "too many levels"
+	}
+	sameVal := func(x, y ssa.Value) bool {
+		if x == y {
+			return true
+		}
+		return sameFieldLoad(x, y)
+	}
+	switch x := w.(type) {
+	case *ssa.MakeSlice:
+		if of, _, ok := lenPlus(x.Len); ok {
+			if k := x.Len; k != nil {
+				if _, off, _ := lenPlus(k); off == 0 && sameVal(of, a) {
+					return true, "made with len of the attribute list"
+				}
+			}
+		}
+		return false, "made with another length"
+	case *ssa.Parameter:
+		// both lists are parameters: compare what the (single) caller hands in
+		var pa *ssa.Parameter
+		if p, ok := a.(*ssa.Parameter); ok {
+			pa = p
+		}
+		if pa == nil || fn == outer {
+			return false, "the list is a parameter"
+		}
+		iw, ia := -1, -1
+		for i, p := range fn.Params {
+			if p == x {
+				iw = i
+			}
+			if p == pa {
+				ia = i
+			}
+		}
+		for _, ci := range callsIn(outer) {
+			if ci.Common().StaticCallee() == fn && iw >= 0 && ia >= 0 {
+				return lenEqualLists(c, outer, outer, ci.Common().Args[iw], ci.Common().Args[ia], depth+1)
+			}
+		}
+		return false, "call of the table function not found"
+	case *ssa.Extract:
+		// (list, ok) := helper(attributes): the helper makes one entry per element of its argument
+		call, ok := x.Tuple.(*ssa.Call)
+		if !ok || call.Call.StaticCallee() == nil || !c.InModule(call.Call.StaticCallee()) {
+			return false, "result of a call that is not a module helper"
+		}
+		h := call.Call.StaticCallee()
+		for _, ret := range returnsOf(h) {
+			rr := retResults(ret)
+			if x.Index >= len(rr) {
+				continue
+			}
+			if k, isK := rr[x.Index].(*ssa.Const); isK && k.IsNil() {
+				continue // the failing exit
+			}
+			ms, isMS := rr[x.Index].(*ssa.MakeSlice)
+			if !isMS {
+				return false, "the helper does not return a freshly made list"
+			}
+			of, off, okL := lenPlus(ms.Len)
+			prm, isP := of.(*ssa.Parameter)
+			if !okL || off != 0 || !isP {
+				return false, "the helper's list is not made with the length of its argument"
+			}
+			for i, p := range h.Params {
+				if p == prm && i < len(call.Call.Args) && sameVal(call.Call.Args[i], a) {
+					return true, "made by " + c.FuncKey(h) + " with the length of the attribute list"
+				}
+			}
+			return false, "the helper's list follows another argument"
+		}
+		return false, "no exit of the helper returns a list"
+	}
+	return false, "the list is re-sliced, appended to or chosen between (" + w.Name() + ")"
 }
